@@ -164,6 +164,7 @@ type Exec struct {
 	pureDepth     int
 	reassigned    map[types.Object]bool
 	freshPtrVars  map[*types.Var]bool
+	freshStructVars map[*types.Var]bool
 	tparams       map[string]types.Type // spec type names bound to type arguments (generic callees)
 }
 
@@ -175,7 +176,7 @@ func newExec(ld *Loader, cs *Contracts, pkg *packages.Package) *Exec {
 		heapComps: map[string]*Sort{}, structSorts: map[string]*Sort{}, typeTags: map[string]int{}, maxPaths: 20000, assumptions: map[string]bool{},
 		maxSteps: 400000, assertHit: map[int]bool{}, skipHit: map[string]bool{}, loopHit: map[int]bool{}, cloHit: map[int]bool{},
 		freshSliceVars: map[*types.Var]bool{}, escaped: map[*ast.FuncLit]bool{}, uncontracted: map[string]bool{}, pureAxiomDone: map[string]bool{},
-		closureOfVar: map[*types.Var]*ast.FuncLit{}, allLits: map[*ast.FuncLit]bool{}, usedAxioms: map[string]bool{}, intrinsics: map[string]bool{}, cloVerified: map[*ast.FuncLit]bool{}, reassigned: map[types.Object]bool{}, freshPtrVars: map[*types.Var]bool{},
+		closureOfVar: map[*types.Var]*ast.FuncLit{}, allLits: map[*ast.FuncLit]bool{}, usedAxioms: map[string]bool{}, intrinsics: map[string]bool{}, cloVerified: map[*ast.FuncLit]bool{}, reassigned: map[types.Object]bool{}, freshPtrVars: map[*types.Var]bool{}, freshStructVars: map[*types.Var]bool{},
 	}
 }
 
@@ -335,6 +336,11 @@ func (ex *Exec) heapGet(st *State, comp string, elem *Sort) string {
 	if e, ok := st.compEpoch[comp]; ok && e > ep {
 		ep = e
 	}
+	for pre, e := range st.compEpoch {
+		if strings.HasSuffix(pre, ".*") && strings.HasPrefix(comp, strings.TrimSuffix(pre, "*")) && e > ep {
+			ep = e
+		}
+	}
 	name := fmt.Sprintf("|H_%s_e%d|", comp, ep)
 	ex.declare(fmt.Sprintf("(declare-const %s (Array Ref %s))", name, elem.Name))
 	st.heap[comp] = name
@@ -358,6 +364,16 @@ func (ex *Exec) heapHavocAll(st *State) {
 func (ex *Exec) heapHavocComp(st *State, comp string) {
 	ex.nfresh++
 	st.compEpoch[comp] = ex.nfresh
+	if strings.HasSuffix(comp, ".*") {
+		// every field component of the struct type
+		pre := strings.TrimSuffix(comp, "*")
+		for c := range st.heap {
+			if strings.HasPrefix(c, pre) {
+				delete(st.heap, c)
+			}
+		}
+		return
+	}
 	delete(st.heap, comp)
 }
 
